@@ -7,6 +7,8 @@ import struct
 
 STUB_X86 = bytes.fromhex("e8000000005b")
 STUB_X64 = bytes.fromhex("554889e54881")
+BOOT_X86 = bytes.fromhex("e8000000005b89df5589e581c3457c0000ffd368f0b5a256680400000057ffd0")
+BOOT_X64 = bytes.fromhex("554889e54881ec20000000488d1deaffffff4889df4881c3a46e0100ffd341b8f0b5a25668040000005a4889f9ffd0")
 MACHINE = {"x86": 0x014C, "x64": 0x8664}
 
 
@@ -56,6 +58,7 @@ def build_pe(
     sec_raw=0x200,
     vsize_mode="raw",
     export_at_start=False,
+    dos_mode="random",
 ):
     """Returns (image bytes, info).  export_section None = no export directory.  `data` is placed at the
     start of section `data_section` (default: the last one)."""
@@ -66,6 +69,12 @@ def build_pe(
         if dos[i] in (0xE8, 0x55, 0xFF):
             dos[i] = 0x11
     hdr = magic_mz + stub
+    if dos_mode == "genuine":
+        # the DOS header as Cobalt Strike ships it: magic, the complete reflective-loader bootstrap, NULs up to e_lfanew
+        # (small little-endian dwords such as e8 00 00 00 / 04 00 00 00 / 20 00 00 00 inside the first 60 bytes)
+        hdr = magic_mz + (BOOT_X86 if arch == "x86" else BOOT_X64)
+        dos = bytearray(lfanew)
+        hdr = hdr[:60]
     dos[: len(hdr)] = hdr
     struct.pack_into("<I", dos, 0x3C, lfanew)
     optsize = 224 if arch == "x86" else 240
